@@ -39,7 +39,7 @@ def with_latest_from_(
 
             def on_next(value: Any) -> None:
                 with parent.lock:
-                    if NO_VALUE not in values:
+                    if all(latest is not NO_VALUE for latest in values):
                         result = (value,) + tuple(values)
                         observer.on_next(result)
 
